@@ -18,10 +18,7 @@ import (
 	"strings"
 )
 
-func init() {
-	Register("C03", genC03)
-	Register("C14", genC14)
-}
+func init() { Register("C03", genC03) }
 
 func regenDeps(c *Ctx, props ...string) {
 	for _, p := range props {
